@@ -9,6 +9,8 @@ have = {}
 for f in sorted(glob.glob(os.path.join(HERE, "checks", "c[0-9]*_*.py"))):
     mod = importlib.import_module("checks." + os.path.basename(f)[:-3])
     have[mod.PID] = mod
+READY = set(open(os.path.join(HERE, "tools", "ready.txt")).read().split())
+have = {k: v for k, v in have.items() if k in READY}   # only checks validated by the lead are claimed
 NA_REASONS = json.load(open(os.path.join(HERE, "tools", "not_applicable.json"))) if os.path.exists(os.path.join(HERE, "tools", "not_applicable.json")) else {}
 na = []
 for p in props:
